@@ -328,12 +328,15 @@ def h_replace(cname, n, m, k, lim, aligned_mode):
         cls, x, pos, s = _obj(K, cname, n)
         old = K.bits('old', m)
         new = K.bits('new', k)
-        a = K.opt_int('start', -lim, lim)
+        whole = isinstance(aligned_mode, tuple) and len(aligned_mode) == 3
+        a = None if whole else K.opt_int('start', -lim, lim)
         b = K.opt_int('end', -lim, lim)
         cnt = K.opt_int('count', -1, 3)
         if aligned_mode == 'arg':
             ba = K.choice('bytealigned', [None, False, True])
             optba = K.bool('options.bytealigned')
+        elif isinstance(aligned_mode, tuple):
+            ba, optba = aligned_mode[0], aligned_mode[1]    # one fixed way of asking (third element: start omitted)
         else:
             ba, optba = None, False
         bitstring.options.bytealigned = optba
@@ -445,8 +448,7 @@ def h_set(cname, n, pkind, invert):
             if invert and n == 0:
                 return K.check(_unchanged(K, s, x, pos), 'invert() on empty changed something')
             if not r.ok:
-                # set(v) on an empty bitstring is not specified; must at least change nothing
-                return K.check(n == 0 and _unchanged(K, s, x, pos), 'set/invert of the whole bitstring raised', exc=r.excname)
+                return K.fail('set/invert of the whole bitstring raised (on an empty bitstring it is a no-op)', exc=r.excname)
             exp = (~x if n else x) if invert else (O.ones(n) if value else O.zeros(n))
             return _content(K, s, exp, 'whole-bitstring set/invert')
         if pkind == 'int':
@@ -487,6 +489,7 @@ BYTESWAP_FMTS = {
     'none': (None, None), 'zero': (0, None), 'one': (1, [1]), 'two': (2, [2]), 'three': (3, [3]),
     'h': ('h', [2]), '>HB': ('>HB', [2, 1]), '2h': ('2h', [2, 2]), 'list12': ([1, 2], [1, 2]), 'tuple2': ((2,), [2]),
     'q': ('q', [8]), 'bB': ('bB', [1, 1]), 'empty-list': ([], []),
+    'iter12': (lambda: iter([1, 2]), [1, 2]), 'gen2': (lambda: (k for k in (2,)), [2]),     # one-shot iterables (made afresh on every path)
 }
 
 
@@ -515,9 +518,10 @@ def _ref_byteswap(K, x, s0, e0, sizes, repeat):
 
 
 def h_byteswap(cname, n, fmtkey, lim, aligned_window=False):
-    fmt, sizes = BYTESWAP_FMTS[fmtkey]
+    fmt0, sizes = BYTESWAP_FMTS[fmtkey]
 
     def h(K):
+        fmt = fmt0() if callable(fmt0) else fmt0
         cls, x, pos, s = _obj(K, cname, n)
         a = K.opt_int('start', -lim, lim)
         b = K.opt_int('end', -lim, lim)
@@ -582,6 +586,50 @@ def h_clear(cname, n):
         cls, x, pos, s = _obj(K, cname, n)
         r = call(lambda: s.clear())
         return K.check(r.ok and r.value is None and len(s) == 0 and len(raw(s)) == 0, 'clear', exc=r.excname)
+    return h
+
+
+# ------------------------------------------------------------------ position-free mutators, both bit-numbering modes
+def h_posfree(cname, n, op, lsb0):
+    """<<=, >>=, &=, |=, ^=, *=, invert(), set(v), clear() do not take positions: the same sequence-level result in msb0 and lsb0 mode"""
+    def h(K):
+        import bitstring
+        cls, x, pos, s = _obj(K, cname, n)
+        y = K.bits('y', n)
+        k = K.int('k', -1, n + 1)
+        v = K.bool('v')
+        other = mk(K, bitstring.Bits, y)
+        fns = {'ilshift': lambda: s.__ilshift__(k), 'irshift': lambda: s.__irshift__(k), 'iand': lambda: s.__iand__(other), 'ior': lambda: s.__ior__(other), 'ixor': lambda: s.__ixor__(other),
+               'imul': lambda: s.__imul__(k), 'invert-all': lambda: s.invert(), 'set-all': lambda: s.set(v), 'clear': lambda: s.clear()}
+        bitstring.options.lsb0 = lsb0
+        try:
+            r = call(fns[op])
+        finally:
+            bitstring.options.lsb0 = False
+        if op in ('ilshift', 'irshift'):
+            if k < 0 or n == 0:
+                return K.check(r.raised(ValueError) and _unchanged(K, s, x, pos), 'negative shift / empty bitstring must raise ValueError and change nothing', exc=r.excname)
+            kk = K.conc(k if k < n else n)
+            exp = O.ref_concat(x[kk:], O.zeros(kk)) if op == 'ilshift' else O.ref_concat(O.zeros(kk), x[:n - kk])
+        elif op in ('iand', 'ior', 'ixor'):
+            if n == 0:
+                return K.check((not r.ok) or same(raw(s), x), 'bit-wise in-place operator on empty bitstrings')
+            exp = (x & y) if op == 'iand' else (x | y) if op == 'ior' else (x ^ y)
+        elif op == 'imul':
+            if k < 0:
+                return K.check(r.raised(ValueError) and _unchanged(K, s, x, pos), 'negative repeat count must raise ValueError and change nothing', exc=r.excname)
+            exp = O.ref_repeat(x, K.conc(k))
+        elif op == 'invert-all':
+            exp = ~x if n else x
+        elif op == 'set-all':
+            exp = O.ones(n) if v else O.zeros(n)
+        else:
+            exp = O.empty()
+        if not r.ok:
+            return K.fail(op + ' raised', exc=r.excname, lsb0=lsb0)
+        if op in ('ilshift', 'irshift', 'iand', 'ior', 'ixor', 'imul') and r.value is not s:
+            return K.fail(op + ' did not return self')
+        return _content(K, s, exp, op + (' (lsb0 mode)' if lsb0 else '') + ' content', lsb0=lsb0)
     return h
 
 
@@ -657,6 +705,13 @@ def conditions(tier):
                     add(f'C03.{nm}-range[{c},n={n}]', h_set(c, n, 'range', inv), f'all {n}-bit contents x range(a,b,c), a,b in [-{n + 2},{n + 2}], c in [-3,3]', D_MISC, n=n, cls=c)
             add(f'C03.imul[{c},n={n}]', h_imul(c, n, 5 if q else 9), f'all {n}-bit contents x count in [-3,{5 if q else 9}]', D_MISC, n=n, cls=c)
             add(f'C03.clear[{c},n={n}]', h_clear(c, n), f'all {n}-bit contents', D_MISC, n=n, cls=c)
+        for n in ([0, 5] if q else [0, 1, 5, 9, 17]):
+            for op in ('ilshift', 'irshift', 'iand', 'ior', 'ixor', 'imul', 'invert-all', 'set-all', 'clear'):
+                for lsb0 in (False, True):
+                    if q and not lsb0 and op in ('imul', 'invert-all', 'set-all', 'clear'):
+                        continue        # msb0: covered by the dedicated conditions above
+                    conds.append(Cond(f"C03.{op}[{c},n={n},{'lsb0' if lsb0 else 'msb0'}]", h_posfree(c, n, op, lsb0), f'all {n}-bit contents x operand / count in [-1,{n + 1}]; options.lsb0={lsb0}', D_MISC,
+                                      dict(n=n, cls=c), timeout=T))
         bs_lens = [0, 8, 17] if q else [0, 7, 8, 16, 17, 24, 33, 40]
         for n in bs_lens:
             for fk in (['none', 'one', 'two', '>HB', 'list12'] if q else list(BYTESWAP_FMTS)):
@@ -664,8 +719,10 @@ def conditions(tier):
                     continue
                 if q and n == 17 and fk in ('none', '>HB'):
                     continue
-                add(f'C03.byteswap[{c},n={n},fmt={fk}]', h_byteswap(c, n, fk, n + 1), f'all {n}-bit contents x start,end in [-{n + 1},{n + 1}] or None x repeat in {{False,True}}; fmt={BYTESWAP_FMTS[fk][0]!r}', D_MISC, n=n, fmt=fk, cls=c)
+                add(f'C03.byteswap[{c},n={n},fmt={fk}]', h_byteswap(c, n, fk, n + 1), f'all {n}-bit contents x start,end in [-{n + 1},{n + 1}] or None x repeat in {{False,True}}; fmt={fk if callable(BYTESWAP_FMTS[fk][0]) else repr(BYTESWAP_FMTS[fk][0])}', D_MISC, n=n, fmt=fk, cls=c)
         if q:
+            for fk in ('iter12', 'gen2'):
+                add(f'C03.byteswap[{c},n=24,fmt={fk},aligned-window]', h_byteswap(c, 24, fk, 25, True), f'all 24-bit contents x start,end multiples of 8 in [-24,24] or None x repeat; fmt={fk} (one-shot iterable)', D_MISC, n=24, cls=c)
             add(f'C03.byteswap[{c},n=24,fmt=two,aligned-window]', h_byteswap(c, 24, 'two', 25, True), 'all 24-bit contents x start,end multiples of 8 in [-24,24] or None x repeat; fmt=2', D_MISC, n=24, cls=c)
         add(f'C03.byteswap-bad[{c}]', h_byteswap_bad(c, 16), 'all 16-bit contents; invalid formats', D_MISC, n=16, cls=c)
     return conds
